@@ -209,6 +209,15 @@ var c06IssetOnly = false
 
 // c06AfterEarlier: what a path or isset yields depends on THIS execution's data and variables only - not on an earlier
 // execution that had data and variables and ended normally, with an error, or with a panic Execute passes on
+type C06Addr struct {
+	Label *string
+	Zip   string
+}
+type c06Shadow struct {
+	Label *string
+	C06Addr
+}
+
 func c06AfterEarlier() *Result {
 	parse := func(src string) *jet.Template {
 		t, err := c06Set.Parse("/h.jet", src)
@@ -224,6 +233,19 @@ func c06AfterEarlier() *Result {
 	}
 	mk := func() jet.VarMap {
 		return jet.VarMap{}.Set("root", c06RootVals["outer"]).Set("title", "T").Set("zero", 0)
+	}
+	// a field of the struct itself wins over a field of the same name promoted from an embedded struct - also when
+	// the embedded type was rendered on its own before (the process-wide field tables are built per type)
+	own := "own"
+	exec(parse(`{{ isset(.Label) }}{{ .Label }}`), nil, C06Addr{})
+	if out, err := exec(parse(`{{ isset(.Label) }}|{{ isset(.C06Addr.Label) }}|{{ .Zip }}`), nil, c06Shadow{Label: &own, C06Addr: C06Addr{Zip: "z"}}); err != nil || out != "true|false|z" {
+		kind := "access-shadowed-field"
+		if c06IssetOnly {
+			kind = "isset-shadowed-field"
+		}
+		return &Result{Sig: map[string]interface{}{"kind": kind, "earlier": "embedded type rendered first", "root": "", "expect": "", "laststep": "", "lastname": ""}, Key: "history",
+			Observed: out, Expected: "true|false|z",
+			Detail: fmt.Sprintf("struct{Label *string (set); C06Addr{Label *string (nil); Zip}}: isset(.Label)|isset(.C06Addr.Label)|.Zip rendered %q (err %v), want %q", out, err, "true|false|z")}
 	}
 	probeIsset := parse(`{{ isset(title) }}|{{ isset(zero) }}|{{ isset(a) }}|{{ isset(b) }}|{{ isset(.Name) }}|{{ isset(.) }}`)
 	probeAccess := parse(`[{{ .Name }}]`)
